@@ -74,7 +74,7 @@ var checks = []Check{
 	},
 	{
 		ID: "C06", Title: "TCP: connections go only to current healthy hosts, per the balancing policy", Level: "model_checking",
-		LevelText:   "all schedules (P<=3/4, delays unbounded) of 2-3 threads picking n*k times from 1-3 hosts through the real round-robin balancer; every random outcome and every connection-count assignment for random and least-connection; every history up to depth 3/4 of add / remove (fresh host objects, as the controller builds them) / replace / health marks / connect / disconnect on the real TCP processor under the three policies with every random outcome; a connection arrival racing a membership or health change under all schedules within bounds; late health results for a stale host object, removals announced with the other type, replacement by fresh objects with the same addresses; a relayed connection to a usable member must stay open; arrival racing a replace whose list starts with a backup; a configuration update that keeps the policy (rotation must continue); a member announced again with the other type; sequences of picks of one balancer from different lists; two services' balancers interleaved; no host is counted with more connections than are established",
+		LevelText:   "all schedules (P<=3/4, delays unbounded) of 2-3 threads picking n*k times from 1-3 hosts through the real round-robin balancer; every random outcome and every connection-count assignment for random and least-connection; every history up to depth 3/4 of add / remove (fresh host objects, as the controller builds them) / replace / health marks / connect / disconnect on the real TCP processor under the three policies with every random outcome; a connection arrival racing a membership or health change under all schedules within bounds; late health results for a stale host object, removals announced with the other type, replacement by fresh objects with the same addresses; a relayed connection to a usable member must stay open; arrival racing a replace whose list starts with a backup; a configuration update that keeps the policy (rotation must continue); a member announced again with the other type; sequences of picks of one balancer from different lists; two services' balancers interleaved; no host is counted with more connections than are established; a configuration update that is rejected as a whole (policy change + unusable health check)",
 		Technique:   "preemption-bounded schedule exploration + exhaustive history enumeration on the real TCP processor under a controlled scheduler",
 		Assumptions: engineAssumptions,
 		Jobs: []Job{
@@ -210,12 +210,13 @@ var checks = []Check{
 	},
 	{
 		ID: "C18", Title: "SCAN through the proxy visits every node once and terminates", Level: "model_checking",
-		LevelText:   "every combination of scripted per-node cursor chains (17 shapes per node, 1-3 nodes, cursors up to 2^48-1) iterated from cursor 0 through the real proxy; MATCH/COUNT/TYPE pass-through; every client-supplied cursor class; lossless cursor composition for all power-of-two boundaries; 0 nodes; a slot refresh between any two calls; one two-node iteration under all schedules within bounds (with scheduling points after releasing operations); iterations of 140/300 calls per node with nearly all batches empty; a call answered -CLUSTERDOWN and repeated; a replica in the host list",
+		LevelText:   "every combination of scripted per-node cursor chains (17 shapes per node, 1-3 nodes, cursors up to 2^48-1) iterated from cursor 0 through the real proxy; MATCH/COUNT/TYPE pass-through; every client-supplied cursor class; lossless cursor composition for all power-of-two boundaries; 0 nodes; a slot refresh between any two calls; one two-node iteration under all schedules within bounds (with scheduling points after releasing operations); iterations of 140/300 calls per node with nearly all batches empty; a call answered -CLUSTERDOWN and repeated; a replica in the host list; a SCAN call waiting in a backend client's queue while the session reads the next command (inline and RESP)",
 		Technique:   "exhaustive enumeration of node cursor histories on the real proxy stack under a controlled scheduler",
 		Assumptions: append([]string{"scripted SCAN answers of the mini cluster (well-formed replies; malformed ones belong to C11)"}, engineAssumptions...),
 		Jobs: []Job{{Pkg: "proc/redis", Scenarios: []string{"C18/scan"}, Shards: 16, QuickS: 90, ThoroughS: 240},
 			{Pkg: "proc/redis", Scenarios: []string{"C02/stack-race"}, Race: true, Shards: 1, QuickS: 120, ThoroughS: 240},
-			{Pkg: "proc/redis", Scenarios: []string{"C18/scan-schedules"}, Shards: 16, QuickS: 60, ThoroughS: 240}},
+			{Pkg: "proc/redis", Scenarios: []string{"C18/scan-schedules"}, Shards: 16, QuickS: 60, ThoroughS: 240},
+			{Pkg: "proc/redis", Scenarios: []string{"C18/scan-queued"}, Shards: 4, QuickS: 30, ThoroughS: 60}},
 	},
 	{
 		ID: "C14", Title: "only supported commands reach backends; writes only reach masters", Level: "exploration",
@@ -250,7 +251,7 @@ var checks = []Check{
 	},
 	{
 		ID: "C17", Title: "hot restart hand-over ordered, acknowledged, robust to bad frames", Level: "fault_enumeration",
-		LevelText:   "bounded-exhaustive enumeration over real unix sockets: every frame (12 types x payload 0..4100 x 13 declared lengths) through the real reader, full round trips through the real sender, every request sequence up to length 4/5 through the real Restarter with a scripted instance, and a first child dropped at every point (after k requests, mid-header, after a malformed frame) followed by a second child; every type byte 0-255 that is not a request; a child gone before its reply can be written; hand-over steps that take 1.3 s / 3.5 s; a child that sends its next request while the step before is still running; a received frame keeps its content while the next is read; the drain step of a listener that is not bound yet (C09/listener)",
+		LevelText:   "bounded-exhaustive enumeration over real unix sockets: every frame (12 types x payload 0..4100 x 13 declared lengths) through the real reader, full round trips through the real sender, every request sequence up to length 4/5 through the real Restarter with a scripted instance, and a first child dropped at every point (after k requests, mid-header, after a malformed frame) followed by a second child; every type byte 0-255 that is not a request; a child gone before its reply can be written; hand-over steps that take 1.3 s / 3.5 s; a child that sends its next request while the step before is still running; a received frame keeps its content while the next is read; the drain step of a listener that is not bound yet (C09/listener); a malformed frame before the k-th request of a child that carries on",
 		Technique:   "bounded-exhaustive frame enumeration + fault-point enumeration over request histories on the real Restarter",
 		Rule:        "each evaluation is a distinct frame or a distinct (request sequence, drop point) history",
 		Assumptions: []string{"Go compiler and runtime", "kernel unix stream sockets (abstract namespace)", "the protocol is request/reply, so outcomes do not depend on goroutine timing; a 30 s read deadline only detects a hung hand-over"},
@@ -262,12 +263,13 @@ var checks = []Check{
 	},
 	{
 		ID: "C19", Title: "hot keys: counters exact for tracked keys and bounded", Level: "model_checking",
-		LevelText:   "explicit-state BFS over every Incr/Latch/Free sequence on the real Counter (capacity 0..3, depth 7/9) against a reference map plus structural invariants of the frequency list; DFS over every Collector history (depth 5/6) including every rand outcome of the logarithmic counter and a minute tick at any clock read; every insert sequence into the sorted report; every interleaving (P<=2/3) of writers, collect, reader and Free; capacities at the uint8 boundaries; three key-name shapes; a report that a reader is still walking stays duplicate free; evictStale on every report state of 1-4/5 keys with heats 1-7 stamped in the previous or current minute; two writers sharing one counter; HOTKEY in a pipeline with compression on (P1 F1 / P2 F1); a counter still used after the other client of its backend freed it",
+		LevelText:   "explicit-state BFS over every Incr/Latch/Free sequence on the real Counter (capacity 0..3, depth 7/9) against a reference map plus structural invariants of the frequency list; DFS over every Collector history (depth 5/6) including every rand outcome of the logarithmic counter and a minute tick at any clock read; every insert sequence into the sorted report; every interleaving (P<=2/3) of writers, collect, reader and Free; capacities at the uint8 boundaries; three key-name shapes; a report that a reader is still walking stays duplicate free; evictStale on every report state of 1-4/5 keys with heats 1-7 stamped in the previous or current minute; two writers sharing one counter; HOTKEY in a pipeline with compression on (P1 F1 / P2 F1); a counter still used after the other client of its backend freed it; a collector serving 1..310 backends whose counters are all full in one period (capacities 1, 2, 4, 50, 51, 255)",
 		Technique:   "explicit-state search over operation histories on the real objects + preemption-bounded schedule exploration",
 		Assumptions: engineAssumptions,
 		Jobs: []Job{
 			{Pkg: "proc/redis", Scenarios: []string{"C19/hotkey-pipelined"}, Shards: 8, QuickS: 90, ThoroughS: 240},
 			{Pkg: "proc/redis/hotkey", Scenarios: []string{"C19/evict-states"}, Shards: 1, QuickS: 60, ThoroughS: 120},
+			{Pkg: "proc/redis/hotkey", Scenarios: []string{"C19/many-backends"}, Shards: 4, QuickS: 60, ThoroughS: 120},
 			{Pkg: "proc/redis/hotkey", Scenarios: []string{"C19/counter", "C19/insert"}, Shards: 1, QuickS: 60, ThoroughS: 240},
 			{Pkg: "proc/redis/hotkey", Scenarios: []string{"C19/collector"}, Shards: 16, QuickS: 60, ThoroughS: 240},
 			{Pkg: "proc/redis/hotkey", Scenarios: []string{"C19/concurrent", "C19/latch-concurrent", "C19/shared-counter"}, Shards: 8, QuickS: 60, ThoroughS: 240},
@@ -285,7 +287,7 @@ var checks = []Check{
 	},
 	{
 		ID: "C12", Title: "key-to-slot mapping equals the Redis Cluster specification", Level: "exploration",
-		LevelText:   "bounded-exhaustive input enumeration through the real routing function: all keys of length 0-3 (every CRC state x every next byte: the induction step for all lengths), two free positions in keys up to 64 bytes, every brace placement over a 4-letter alphabet up to length 9/11, against a bit-by-bit CRC16/XMODEM and the specification's hash-tag rule; slots moved one at a time with redirected GET/SET/EVAL/MGET (a redirection teaches the proxy only about the redirected key's slot); every forwarded command of the command table arrives at the owner of its first key; RESP/inline pipelines whose queued requests must keep their keys (C14/pipelines); an owner that refuses a command once with -CLUSTERDOWN",
+		LevelText:   "bounded-exhaustive input enumeration through the real routing function: all keys of length 0-3 (every CRC state x every next byte: the induction step for all lengths), two free positions in keys up to 64 bytes, every brace placement over a 4-letter alphabet up to length 9/11, against a bit-by-bit CRC16/XMODEM and the specification's hash-tag rule; slots moved one at a time with redirected GET/SET/EVAL/MGET (a redirection teaches the proxy only about the redirected key's slot); every forwarded command of the command table arrives at the owner of its first key; RESP/inline pipelines whose queued requests must keep their keys (C14/pipelines); an owner that refuses a command once with -CLUSTERDOWN; requests issued at every unsynchronised slot-table access of a running refresh of an unchanged layout (C03/refresh-concurrent)",
 		Technique:   "bounded-exhaustive input enumeration (complete by induction over the CRC state)",
 		Rule:        "each evaluation is a distinct key; all are counted (the 2^24 three-byte keys cover every CRC state x next byte)",
 		Assumptions: []string{"Go compiler and runtime", "reference CRC16/XMODEM and hash-tag rule written from the Redis Cluster specification", "slot read through upstream.chooseHost over an identity slot table"},
@@ -294,6 +296,7 @@ var checks = []Check{
 			{Pkg: "proc/redis", Scenarios: []string{"C12/concurrent"}, Shards: 4, QuickS: 60, ThoroughS: 240},
 			{Pkg: "proc/redis", Scenarios: []string{"C12/redirect-learning", "C12/reported-table"}, Shards: 4, QuickS: 60, ThoroughS: 240},
 			{Pkg: "proc/redis", Scenarios: []string{"C14/pipelines"}, Shards: 16, QuickS: 60, ThoroughS: 240}, // the key a node receives is the key that was routed
+			{Pkg: "proc/redis", Scenarios: []string{"C03/refresh-concurrent"}, Shards: 16, QuickS: 60, ThoroughS: 240}, // a refresh of an unchanged layout never changes where a key goes, at no point of it
 			{Pkg: "proc/redis", Scenarios: []string{"C14/commands"}, Shards: 12, QuickS: 120, ThoroughS: 240}, // end to end: every forwarded command arrives at the owner of its first key
 		},
 	},
